@@ -801,8 +801,21 @@ def _make_schema_loop(schema: set[CIFSchema]) -> Loop | None:
     )
 
 
+def _cannot_be_unquoted(value: str) -> bool:
+    # Characters that cannot start an unquoted string and reserved words (CIF 1.1).
+    if value.startswith(('_', '#', '$', '[', ']', ';')):
+        return True
+    lower = value.lower()
+    return lower.startswith(('data_', 'save_')) or lower in ('loop_', 'stop_', 'global_')
+
+
 def _quotes_for_string_value(value: str) -> str | None:
     if '\n' in value:
+        if '\n;' in value:
+            raise ValueError(
+                "Cannot encode a string with a line that starts with ';' "
+                f"in a CIF text field: {value!r}"
+            )
         return ';'
     if "'" in value:
         if '"' in value:
@@ -810,10 +823,12 @@ def _quotes_for_string_value(value: str) -> str | None:
         return '"'
     if '"' in value:
         return "'"
-    if ' ' in value:
+    if ' ' in value or '\t' in value:
         return "'"
     if not value:
         return "'"  # so that empty strings are shown as ''
+    if _cannot_be_unquoted(value):
+        return "'"
     return None
 
 
